@@ -101,4 +101,99 @@ theorem parseRecs_emitRecs (elem : List Nat) : ∀ (rs : List (List Nat)) (b res
       simp only [List.length_cons, parseRecs, List.append_assoc, h1, h2]
     · cases h
 
+/-! ## variable-size records (`arrayV`) -/
+
+theorem repGroup_all (tail : Nat) (ws : List Nat) (h : ws.all (· == tail) = true) :
+    ∀ n, repGroup n ws = List.replicate (n * ws.length) tail
+  | 0 => by simp [repGroup]
+  | n + 1 => by
+    have hws : ws = List.replicate ws.length tail := by
+      apply List.eq_replicate_iff.mpr
+      refine ⟨rfl, ?_⟩
+      intro x hx
+      have := List.all_eq_true.mp h x hx
+      simpa using this
+    rw [repGroup, repGroup_all tail ws h n, Nat.succ_mul, Nat.add_comm, ← List.replicate_append_replicate, ← hws]
+
+/-- soundness of the static check: for every value of its counts the reader's element layout is the writer's fixed
+prefix followed by `tail`-byte scalars -/
+theorem segsCompat_sound (tail : Nat) (view : View) : ∀ (segs : Segs) (pre : List Nat),
+    segsCompat tail pre segs = true → ∃ k, evalSegs view segs = pre ++ List.replicate k tail
+  | [], pre, h => by
+    simp only [segsCompat, List.isEmpty_iff] at h
+    subst h
+    exact ⟨0, by simp [evalSegs]⟩
+  | (n, ws) :: rest, pre, h => by
+    simp only [segsCompat] at h
+    split at h
+    · rename_i hp
+      simp only [List.isEmpty_iff] at hp
+      subst hp
+      simp only [Bool.and_eq_true] at h
+      obtain ⟨k, hk⟩ := segsCompat_sound tail view rest [] h.2
+      refine ⟨n.eval view * ws.length + k, ?_⟩
+      simp only [evalSegs, hk, repGroup_all tail ws h.1, List.nil_append, List.replicate_append_replicate]
+    · simp only [Bool.and_eq_true, beq_iff_eq] at h
+      obtain ⟨⟨hn, hpre⟩, hrest⟩ := h
+      subst hn
+      obtain ⟨k, hk⟩ := segsCompat_sound tail view rest (pre.drop ws.length) hrest
+      refine ⟨k, ?_⟩
+      have hp : ws ++ pre.drop ws.length = pre := by
+        have := List.isPrefixOf_iff_prefix.mp hpre
+        obtain ⟨t, ht⟩ := this
+        subst ht
+        simp
+      simp only [evalSegs, NExpr.eval, repGroup, List.append_nil, hk]
+      rw [← List.append_assoc, hp]
+
+theorem wWidths_of_eq (pre : List Nat) (tail k len : Nat) (ws : List Nat)
+    (hws : ws = pre ++ List.replicate k tail) (hlen : len = ws.length) : wWidths pre tail len = ws := by
+  subst hws hlen
+  simp [wWidths]
+
+theorem emitRecsV_eq (pre : List Nat) (tail : Nat) (elem : List Nat) : ∀ (xs : List (List Nat)),
+    (∀ x ∈ xs, pre.length ≤ x.length ∧ wWidths pre tail x.length = elem) →
+    emitRecsV pre tail xs = emitRecs elem xs
+  | [], _ => by simp [emitRecsV, emitRecs]
+  | r :: rs, h => by
+    have h1 := h r (List.mem_cons_self ..)
+    have ih := emitRecsV_eq pre tail elem rs (fun x hx => h x (List.mem_cons_of_mem _ hx))
+    simp only [emitRecsV, emitRecs, if_pos h1.1, h1.2, ih]
+
+/-! ## length-prefixed elements (`arrayL`) -/
+
+theorem emitRec_widths_length : ∀ (ss xs : List Nat) (b : Bytes), emitRec ss xs = some b → xs.length = ss.length
+  | [], [], b, h => rfl
+  | [], _ :: _, b, h => by simp [emitRec] at h
+  | _ :: _, [], b, h => by simp [emitRec] at h
+  | s :: ss, x :: xs, b, h => by
+    simp only [emitRec] at h
+    split at h
+    · split at h
+      · rename_i b' hb'
+        simp [emitRec_widths_length ss xs b' hb']
+      · cases h
+    · cases h
+
+theorem parseRecsL_emitRecsL (hw : Nat) (item : List Nat) : ∀ (rs : List (List Nat)) (b rest : Bytes),
+    emitRecsL hw item rs = some b → parseRecsL hw item rs.length (b ++ rest) = some (rs, rest)
+  | [], b, rest, h => by simp [emitRecsL] at h; simp [h, parseRecsL]
+  | r :: rs, b, rest, h => by
+    simp only [emitRecsL] at h
+    split at h
+    · rename_i hk
+      split at h
+      · rename_i a b' ha hb
+        injection h with h
+        subst h
+        have h1 := parseRec_emitRec _ r a (b' ++ rest) ha
+        have h2 := parseRecsL_emitRecsL hw item rs b' rest hb
+        have hl : ¬ (be hw (r.length / item.length) ++ (a ++ (b' ++ rest))).length < hw := by
+          simp [be_length]
+        simp only [List.length_cons, parseRecsL, List.append_assoc, if_neg hl]
+        rw [take_be_append, drop_be_append, beVal_be _ _ hk.2, h1]
+        simp only [h2]
+      · cases h
+    · cases h
+
 end FontVerif.Field
